@@ -30,6 +30,13 @@ func C05() int {
 		rep := sn.Flags.Replacement()
 		n := 0
 		WalkTagged(sn.Item.Tree, sn.Out, sn.Flags.F != "", func(o TObs) {
+			if np := len(o.Path); np >= 2 && o.Path[np-1] == "subType" && o.Path[np-2] == "$binary" && o.Tag != nil && o.Tag.Role == jt.Keep && o.Mismatch == "" {
+				c.Count("binary_subtypes_compared", 1)
+				if o.Out.S != o.In.S {
+					c.Violation("subtype-changed|"+opSig(o.Path), fmt.Sprintf("$binary.subType %q became %q at %s (flags %s)", o.In.S, trunc(o.Out.S, 40), jt.PathStr(o.Path), sn.Flags),
+						replayOf(sn, map[string]any{"leaf": jt.PathStr(o.Path)}))
+				}
+			}
 			if o.Tag == nil || !o.Own || o.Tag.Role != jt.Sens || o.Mismatch != "" {
 				return
 			}
